@@ -196,6 +196,7 @@ void pbt_run(const Case& cs, Ctx& ctx) {
       // s[i] = s[j] + s[k]
       String r = *s[j] + *s[k3];
       std::string mr = m[j] + m[k3];
+      if (a3 & 128) { r = *s[j] + L3 + L5; mr = m[j] + std::string(L3) + std::string(L5); ctx.label("plus_literal"); }
       if (i == j || i == k3) ctx.label("self_argument");
       S = r; m[i] = mr; fresh(i);
     }
@@ -350,6 +351,10 @@ void pbt_run(const Case& cs, Ctx& ctx) {
       bool ew = ma.size() >= mb.size() && memcmp(ma.data() + ma.size() - mb.size(), mb.data(), mb.size()) == 0;
       if (A.startsWith(B) != sw) ctx.fail("mismatch:startsWith", "startsWith");
       if (A.endsWith(B) != ew) ctx.fail("mismatch:endsWith", "endsWith");
+      // comparison with literals (the array-reference overloads)
+#define LITEQ(L) if ((A == L) != (ma == std::string(L, sizeof L - 1)) || (A != L) == (ma == std::string(L, sizeof L - 1))) ctx.fail("mismatch:eq-literal", "operator==/!= with a literal");
+      LITEQ(L0) LITEQ(L1) LITEQ(L2) LITEQ(L3) LITEQ(L4) LITEQ(L5)
+#undef LITEQ
       char c = ALPHA[a3 % (sizeof ALPHA - 1)];
       { const char* f = A.find(c); size_t mf = ma.find(c); if ((f != 0) != (mf != std::string::npos)) ctx.fail("mismatch:find-char", "find(char) presence"); }
       if (nulFree(ma) && nulFree(mb)) {
@@ -366,6 +371,9 @@ void pbt_run(const Case& cs, Ctx& ctx) {
         { int c3 = 0; size_t q = 0; for (;; ++q) { unsigned char x = q < ma.size() ? (unsigned char)lc(ma[q]) : 0, y = q < mb.size() ? (unsigned char)lc(mb[q]) : 0; if (x != y || !x) { c3 = (int)x - (int)y; break; } }
           if (sgn(A.compareIgnoreCase(B)) != sgn(c3)) ctx.fail("mismatch:compareIgnoreCase", "compareIgnoreCase");
           if (A.equalsIgnoreCase(B) != (ma.size() == mb.size() && c3 == 0)) ctx.fail("mismatch:equalsIgnoreCase", "equalsIgnoreCase"); }
+        { int c4 = 0; for (size_t q = 0; q < n; ++q) { unsigned char x = q < ma.size() ? (unsigned char)lc(ma[q]) : 0, y = q < mb.size() ? (unsigned char)lc(mb[q]) : 0; if (!x || x != y) { c4 = (int)x - (int)y; break; } }
+          if (sgn(A.compareIgnoreCase(B, (usize)n)) != sgn(c4)) ctx.fail("mismatch:compareIgnoreCase-n", "compareIgnoreCase(other, n)");
+          if (A.equalsIgnoreCase(B, (usize)n) != (c4 == 0)) ctx.fail("mismatch:equalsIgnoreCase-n", "equalsIgnoreCase(other, n)"); }
         auto off = [&](const char* f) -> long { return f ? (long)(f - pa) : -1; };
         auto moff = [](size_t f) -> long { return f == std::string::npos ? -1 : (long)f; };
         size_t st = (size_t)(a2 < 0 ? 0 : a2 % 14);
